@@ -244,6 +244,29 @@ class Body:
     def succ(self, bb):
         return self._succ[bb]
 
+    def const_text(self, disp):
+        """Display text of a constant; `...promoted[N]` is resolved to the promoted body's constants."""
+        import re
+        m = re.search(r"promoted\[(\d+)\]$", disp.strip())
+        if m:
+            pr = self.mir.get("prom") or []
+            n = int(m.group(1))
+            if n < len(pr):
+                return " ".join(pr[n])
+        return disp
+
+    def operand_text(self, op, depth=3):
+        """All constant text an operand may carry (through refs/copies), promoteds resolved."""
+        if op[0] == "k":
+            return self.const_text(op[1])
+        out = []
+        for o in self.origins(op[1][0]):
+            if o[0] == "const":
+                out.append(self.const_text(o[1][1]))
+            elif o[0] == "agg":
+                out.append(o[1])
+        return " ".join(out)
+
     def pred(self, bb):
         if self._pred is None:
             pr = [[] for _ in range(self.n)]
